@@ -1,13 +1,225 @@
-/- Line-protocol driver of the IR cluster (see lakefile.toml). -/
-import FfcxModel.Driver.Loop
+/- Line-protocol driver of the IR cluster (see lakefile.toml): element tables, scalar graphs,
+argument factorisation (C01, C10).
 
-open Ffcx
+Requests (one s-expression per line):
+  (ping)
+  (clamp rtol atol v…)                               → (ok v'…)
+  (classify rtol atol (dims P E Q D) v…)             → (ok ttype is_permuted (dims P' E' Q' D') (values …)
+                                                          (reads …) (allperms b) (nred k))
+       `reads`: `tableAccess (compress t) p e q d` for every (p,e,q,d) of the UNcompressed shape,
+       row-major (`none` = read outside the compressed array)
+  (access ttype is_permuted p e q d)                 → (ok p' e' q' d')
+  (factorize <graph> rank)                           → (ok (F node…) (factors (comp (key…) fi)…)
+                                                          (nodefacs (((key…) fi)…)…) (argidx …)) | (err name …)
+  (evalgraph <graph> (args (pos v)…) (terms (id v)…)) → (ok v0 v1 …)
+  (wf <graph> rank)                                  → (ok wf wfStrict closed arity)
+Graphs: (graph (nodes (n <kind> dep…)…) (targets (i comp…)…)); kinds:
+  (arg pos number) (term id) zero (int v) (float v) (complex re im) sum prod div conj real imag abs cond
+  (condition NAME) (op NAME)
+-/
+import FfcxModel.Driver.Loop
+import FfcxModel.IR.Tables
+import FfcxModel.IR.Graph
+import FfcxModel.IR.Factorize
+
+open Ffcx Ffcx.IR
+
+namespace IrDriver
+
+def ofRatList (xs : List Rat) : List Sexp := xs.map Sexp.ofRat
+
+def parseDims (s : Sexp) : Except String (Nat × Nat × Nat × Nat) := do
+  match s with
+  | .list [.atom "dims", p, e, q, d] => pure (← p.asNat, ← e.asNat, ← q.asNat, ← d.asNat)
+  | _ => throw "expected (dims P E Q D)"
+
+def parseTType (s : String) : Except String TType :=
+  match s with
+  | "zeros" => pure .zeros | "ones" => pure .ones | "quadrature" => pure .quadrature
+  | "fixed" => pure .fixed | "piecewise" => pure .piecewise | "uniform" => pure .uniform
+  | "varying" => pure .varying
+  | _ => throw s!"unknown ttype {s}"
+
+def cmdClamp (args : List Sexp) : Except String Sexp := do
+  match args with
+  | rt :: at_ :: vs =>
+    let rtol ← rt.asRat
+    let atol ← at_.asRat
+    let xs ← vs.mapM Sexp.asRat
+    pure (.list (.atom "ok" :: ofRatList (xs.map (clamp rtol atol))))
+  | _ => throw "clamp: rtol atol v…"
+
+def cmdClassify (args : List Sexp) : Except String Sexp := do
+  match args with
+  | rt :: at_ :: dims :: vs =>
+    let rtol ← rt.asRat
+    let atol ← at_.asRat
+    let (P, E, Q, D) ← parseDims dims
+    let xs ← vs.mapM Sexp.asRat
+    if xs.length ≠ P * E * Q * D then throw "classify: wrong number of values"
+    let t := Table.ofFlat P E Q D xs.toArray
+    let c := compress rtol atol t
+    let reads := Id.run do
+      let mut out : Array Sexp := Array.mkEmpty (P * E * Q * D)
+      for p in [0:P] do
+        for e in [0:E] do
+          for q in [0:Q] do
+            for d in [0:D] do
+              out := out.push (match tableAccess c p e q d with
+                | some v => Sexp.ofRat v
+                | none => .atom "none")
+      return out
+    let allp := classifiedOnAllPerms rtol atol c.ttype t
+    let nred := (if c.ttype.isPiecewise then 1 else 0) + (if c.ttype.isUniform then 1 else 0) +
+      (if c.isPermuted then 0 else 1)
+    pure (.list [.atom "ok", .atom c.ttype.name, Sexp.ofBool c.isPermuted,
+      .list [.atom "dims", Sexp.ofNat c.table.P, Sexp.ofNat c.table.E, Sexp.ofNat c.table.Q,
+        Sexp.ofNat c.table.D],
+      .list (.atom "values" :: ofRatList c.table.toFlat.toList),
+      .list (.atom "reads" :: reads.toList),
+      .list [.atom "allperms", Sexp.ofBool allp],
+      .list [.atom "nred", Sexp.ofNat nred]])
+  | _ => throw "classify: rtol atol (dims P E Q D) v…"
+
+def cmdAccess (args : List Sexp) : Except String Sexp := do
+  match args with
+  | [tt, perm, p, e, q, d] =>
+    let ttype ← parseTType (← tt.asAtom)
+    let c : Compressed := { ttype, isPermuted := ← perm.asBool, table := Table.ofFlat 0 0 0 0 #[] }
+    let (p', e', q', d') := accessIndex c (← p.asNat) (← e.asNat) (← q.asNat) (← d.asNat)
+    pure (.list [.atom "ok", Sexp.ofNat p', Sexp.ofNat e', Sexp.ofNat q', Sexp.ofNat d'])
+  | _ => throw "access: ttype is_permuted p e q d"
+
+/-! graphs -/
+
+def parseKind (s : Sexp) : Except String Kind := do
+  match s with
+  | .atom "zero" => pure .zero
+  | .atom "sum" => pure .sum
+  | .atom "prod" => pure .prod
+  | .atom "div" => pure .div
+  | .atom "conj" => pure .conj
+  | .atom "real" => pure .real
+  | .atom "imag" => pure .imag
+  | .atom "abs" => pure .abs
+  | .atom "cond" => pure .cond
+  | .list [.atom "arg", p, n] => pure (.arg (← p.asNat) (← n.asNat))
+  | .list [.atom "term", i] => pure (.term (← i.asNat))
+  | .list [.atom "int", v] => pure (.lit true (← v.asRat))
+  | .list [.atom "float", v] => pure (.lit false (← v.asRat))
+  | .list [.atom "complex", a, b] => pure (.clit (← a.asRat) (← b.asRat))
+  | .list [.atom "condition", n] => pure (.condition (← n.asAtom))
+  | .list [.atom "op", n] => pure (.op (← n.asAtom))
+  | _ => throw s!"bad kind {s}"
+
+def kindSexp : Kind → Sexp
+  | .zero => .atom "zero" | .sum => .atom "sum" | .prod => .atom "prod" | .div => .atom "div"
+  | .conj => .atom "conj" | .real => .atom "real" | .imag => .atom "imag" | .abs => .atom "abs"
+  | .cond => .atom "cond"
+  | .arg p n => .list [.atom "arg", Sexp.ofNat p, Sexp.ofNat n]
+  | .term i => .list [.atom "term", Sexp.ofNat i]
+  | .lit true v => .list [.atom "int", Sexp.ofRat v]
+  | .lit false v => .list [.atom "float", Sexp.ofRat v]
+  | .clit a b => .list [.atom "complex", Sexp.ofRat a, Sexp.ofRat b]
+  | .condition n => .list [.atom "condition", .atom n]
+  | .op n => .list [.atom "op", .atom n]
+
+def parseNode (s : Sexp) : Except String Node := do
+  match s with
+  | .list (.atom "n" :: k :: ds) => pure { kind := ← parseKind k, deps := ← ds.mapM Sexp.asNat }
+  | _ => throw "bad node"
+
+def nodeSexp (n : Node) : Sexp := .list (.atom "n" :: kindSexp n.kind :: n.deps.map Sexp.ofNat)
+
+def parseGraph (s : Sexp) : Except String Graph := do
+  match s with
+  | .list [.atom "graph", .list (.atom "nodes" :: ns), .list (.atom "targets" :: ts)] =>
+    let nodes ← ns.mapM parseNode
+    let targets ← ts.mapM fun t => do
+      match t with
+      | .list (i :: cs) => pure (← i.asNat, ← cs.mapM Sexp.asNat)
+      | _ => throw "bad target"
+    pure { nodes := nodes.toArray, targets }
+  | _ => throw "expected (graph (nodes …) (targets …))"
+
+def keySexp (k : Key) : Sexp := .list (k.map Sexp.ofNat)
+def dictSexp (d : Dict) : Sexp := .list (d.map fun kv => .list [keySexp kv.1, Sexp.ofNat kv.2])
+
+def errSexp : FErr → Sexp
+  | .nonlinear c => .list [.atom "err", .atom "nonlinear", .atom c]
+  | .sumRank => .list [.atom "err", .atom "sumRank"]
+  | .divByArg => .list [.atom "err", .atom "divByArg"]
+  | .condInCondition => .list [.atom "err", .atom "condInCondition"]
+  | .condNonzeroBranch => .list [.atom "err", .atom "condNonzeroBranch"]
+  | .condEmptyKey => .list [.atom "err", .atom "condEmptyKey"]
+  | .zeroNotInF => .list [.atom "err", .atom "zeroNotInF"]
+  | .divisionByZero => .list [.atom "err", .atom "divisionByZero"]
+  | .malformed w => .list [.atom "err", .atom "malformed", .atom w]
+
+def cmdFactorize (args : List Sexp) : Except String Sexp := do
+  match args with
+  | [g, r] =>
+    let S ← parseGraph g
+    let rank ← r.asNat
+    match factorize S rank with
+    | .error e => pure (errSexp e)
+    | .ok res =>
+      pure (.list [.atom "ok",
+        .list (.atom "F" :: res.F.toList.map nodeSexp),
+        .list (.atom "factors" :: (FResult.factors res).flatMap fun (c, d) =>
+          d.map fun kv => .list [Sexp.ofNat c, keySexp kv.1, Sexp.ofNat kv.2]),
+        .list (.atom "nodefacs" :: res.nodeFacs.toList.map dictSexp),
+        .list (.atom "argidx" :: res.argIndices.map Sexp.ofNat)])
+  | _ => throw "factorize: graph rank"
+
+def parseAssoc (tag : String) (s : Sexp) : Except String (List (Nat × Rat)) := do
+  match s with
+  | .list (.atom t :: ps) =>
+    if t ≠ tag then throw s!"expected ({tag} …)"
+    ps.mapM fun p => do
+      match p with
+      | .list [i, v] => pure (← i.asNat, ← v.asRat)
+      | _ => throw "bad pair"
+  | _ => throw s!"expected ({tag} …)"
+
+def assocFn (l : List (Nat × Rat)) : Nat → Rat :=
+  let n := l.foldl (fun m p => max m (p.1 + 1)) 0
+  let arr := l.foldl (fun (a : Array Rat) p => a.setIfInBounds p.1 p.2) (Array.replicate n 0)
+  fun i => arr[i]?.getD 0
+
+def cmdEvalGraph (args : List Sexp) : Except String Sexp := do
+  match args with
+  | [g, a, t] =>
+    let S ← parseGraph g
+    let ρ := ratEnv (assocFn (← parseAssoc "args" a)) (assocFn (← parseAssoc "terms" t))
+    pure (.list (.atom "ok" :: ofRatList (evalNodes ρ S.nodes).toList))
+  | _ => throw "evalgraph: graph (args …) (terms …)"
+
+def cmdWf (args : List Sexp) : Except String Sexp := do
+  match args with
+  | [g, r] =>
+    let S ← parseGraph g
+    let rank ← r.asNat
+    let wf := match factorize S rank with
+      | .ok res => wfCheck S rank res
+      | .error _ => false
+    pure (.list [.atom "ok", Sexp.ofBool wf, Sexp.ofBool (wfStrict S.nodes),
+      Sexp.ofBool (closedB S.nodes), Sexp.ofBool (arityB S.nodes)])
+  | _ => throw "wf: graph rank"
+
+end IrDriver
 
 def dispatch (req : Sexp) : Except String Sexp :=
   match req with
-  | .list (.atom cmd :: _args) =>
+  | .list (.atom cmd :: args) =>
     match cmd with
     | "ping" => .ok (.atom "pong")
+    | "clamp" => IrDriver.cmdClamp args
+    | "classify" => IrDriver.cmdClassify args
+    | "access" => IrDriver.cmdAccess args
+    | "factorize" => IrDriver.cmdFactorize args
+    | "evalgraph" => IrDriver.cmdEvalGraph args
+    | "wf" => IrDriver.cmdWf args
     | _ => .error s!"unknown command {cmd}"
   | _ => .error "request must be a list"
 
